@@ -81,21 +81,24 @@ def run(ctx):
         if nm <= 5:
             ctx.note("model/implementation disagree on history #%d (first difference: %s)" % (idx, d))
         ctx.broken.append({"kind": "correspondence", "what": "Refs/Model.v disagrees with the implementation on a history", "first_difference": d, "case": slim(o)})
+        if nm <= 2:
+            # the history is a concrete failing input of the correspondence obligation: reported with a replay, not as "no failing input found"
+            ctx.violation("%s:model" % ID, "the implementation leaves the model the %s theorems are about on this history (first difference: %s)" % (ID, d), slim(o))
     kinds, nsteps, ncalls = summarize(obs)
-    distinct = len({str(o["steps"]) + str(o["inject"]) for o in obs})
+    distinct = refs_cases.count_distinct_nontrivial(obs, ID)
     ctx.coverage.update({
         "evaluations": len(obs),
         "distinct_nontrivial": distinct,
         "rule": RULE,
         "correspondence": {"cases": len(obs), "mismatches": nm, "requests": nsteps, "backend_calls": ncalls, "by_request_kind": kinds,
                            "with_injected_failure": sum(1 for o in obs if o["inject"]), "complete_disconnect": sum(1 for o in obs if o.get("complete")), "gated_scenarios": sum(1 for o in obs if o.get("gated"))},
-        "samples": [slim(obs[0]), slim(obs[len(obs) // 2])],
+        "samples": refs_cases.pick_samples(obs, ID, slim),
     })
 
 
 RULE = ("fixed corpus (ancestor renames, Trename, subtree unlink + fenced requests + re-creation, rename over existing directory/file, refused "
         "renames, two connections) and random histories over 2-3 names x depth <= 4 with 2 connections x 8 fids, both walk flavours, GetAttr "
-        "probe through every bound fid after each tree change, occasional injected backend failure; distinct = distinct (steps, injection) records")
+        "probe through every bound fid after each tree change, occasional injected backend failure; distinct_nontrivial = distinct (steps, injection) records with >= 3 requests of which at least one rename/unlink succeeded, plus the gated scenarios; samples = the injected-failure history with the most backend calls, the complete history with the most successful rename/unlink requests, one gated scenario")
 
 
 def slim(o):
